@@ -1,12 +1,23 @@
 #!/bin/bash
 # tools/try_mutant.sh <patch.diff> [tier] [check ids…]  — apply a seeded change to /repo, run checks, undo it.
-# Prints one line per check: id, exit code, VIOLATION signatures.
+# Prints one line per check: id, exit code, VIOLATION signatures.  Evidence and replay files written while the
+# change is applied are moved aside (they describe the mutant, not /repo) and the previous ones restored.
 patch=$1; tier=${2:-quick}; shift 2
 ids=${@:-$(seq -f "C%02g" 1 20)}
 cd /repo || exit 2
 if ! git diff --quiet; then echo "/repo has uncommitted changes"; exit 2; fi
 git apply "$patch" || { echo "patch does not apply"; exit 2; }
-trap 'git -C /repo checkout -- . ; git -C /repo clean -fdq crates codegen' EXIT
+keep=$(mktemp -d /verif/harness/target/mutant-keep.XXXXXX)
+cp -a /verif/evidence "$keep/evidence"; ls /verif/replays > "$keep/replays.before"
+restore() {
+  git -C /repo checkout -- . ; git -C /repo clean -fdq crates codegen
+  rm -rf /verif/evidence; mv "$keep/evidence" /verif/evidence
+  mkdir -p "$keep/replays"
+  for f in $(ls /verif/replays); do grep -qxF "$f" "$keep/replays.before" || mv "/verif/replays/$f" "$keep/replays/"; done
+  [ -n "$MUTANT_REPLAYS" ] && { mkdir -p "$MUTANT_REPLAYS"; cp -a "$keep/replays/." "$MUTANT_REPLAYS/" 2>/dev/null; }
+  rm -rf "$keep"
+}
+trap restore EXIT
 /verif/vcheck build || { echo "BUILD FAILED with mutant"; exit 3; }
 for id in $ids; do
   out=$(cd /verif/harness && VERIF_SEED=${VERIF_SEED:-1} ./target/debug/vcheck $id --tier $tier 2>&1); rc=$?
